@@ -313,8 +313,9 @@ class IH5Record(IH5Group):
             raise ValueError(f"Invalid record name: '{record.name}'")
         path = cls._base_filename(record)
 
-        # if overwrite flag is set, check and remove old record if present
-        if truncate and path.is_file():
+        # if overwrite flag is set, remove old record if present
+        # (also if just some patch containers of it are left)
+        if truncate:
             cls.delete_files(record)
 
         # create new container
